@@ -27,42 +27,42 @@ Qed.
 
 Lemma l1_sep n : forall w sv x : Rvec, length w = n -> length sv = n -> length x = n ->
   allpos w -> allpos sv ->
-  sep_opt (repeat (fun t => Some (Rabs t)) n) w sv x (@prox_l1 R _ 1 None sv x).
+  sep_sub (repeat (fun t => Some (Rabs t)) n) w sv x (@prox_l1 R _ 1 None sv x).
 Proof.
   vind2 n. - constructor.
   - inv_allpos. unfold prox_l1, gsub in *. unfv. cbn [vmap2 repeat]. constructor; try assumption.
     + rewrite nmax_R. numR.
-      apply (opt1_ext (fun t => Some (1 * Rabs (t - 0)))).
+      apply (sub1_ext (fun t => Some (1 * Rabs (t - 0)))).
       { intros t. rewrite Rminus_0_r, Rmult_1_l. reflexivity. }
-      lazymatch goal with |- opt1 _ ?s ?a _ =>
+      lazymatch goal with |- sub1 _ ?s ?a _ =>
         pose proof (soft1_opt 1 0 s a ltac:(lra) ltac:(assumption)) as Q end.
       unfold soft1 in Q. rewrite Rminus_0_r in Q. exact Q.
     + apply IHn; auto; lia.
 Qed.
 
-(* generic: conclude is_proxm from the two per-leaf facts *)
+(* generic: conclude is_proxs from the two per-leaf facts *)
 Lemma sep_conclude n (f : Rvec -> option R) phis w sv x p c :
   length w = n ->
   (forall z, length z = n -> f z = eadd (sepsum phis w z) (Some c)) ->
-  sep_opt phis w sv x p ->
-  is_proxm n f (metric w sv) x p.
+  sep_sub phis w sv x p ->
+  is_proxs n f (metric w sv) x p.
 Proof.
-  intros Hw Hv Hs. subst n. eapply is_proxm_ext; [exact Hv|].
-  apply is_proxm_add_const. apply sep_prox. assumption.
+  intros Hw Hv Hs. subst n. eapply is_proxs_ext; [exact Hv|].
+  apply is_proxs_add_const. apply sep_proxs. assumption.
 Qed.
 Lemma eadd_0_r (a : option R) : (forall v, a = Some v -> True) -> eadd a (Some 0) = match a with Some v => Some (v + 0) | None => None end.
 Proof. destruct a; reflexivity. Qed.
 Lemma sep_conclude0 n (f : Rvec -> option R) phis w sv x p :
   length w = n ->
   (forall z, length z = n -> f z = sepsum phis w z) ->
-  sep_opt phis w sv x p ->
-  is_proxm n f (metric w sv) x p.
+  sep_sub phis w sv x p ->
+  is_proxs n f (metric w sv) x p.
 Proof.
-  intros Hw Hv Hs. subst n. eapply is_proxm_ext; [exact Hv|]. apply sep_prox. assumption.
+  intros Hw Hv Hs. subst n. eapply is_proxs_ext; [exact Hv|]. apply sep_proxs. assumption.
 Qed.
 
 Theorem l1_leaf_prox n w sv x : length w = n -> length sv = n -> length x = n -> allpos w -> allpos sv ->
-  is_proxm n (@leaf_val R _ _ FL1 w) (metric w sv) x (@prox_l1 R _ 1 None sv x).
+  is_proxs n (@leaf_val R _ _ FL1 w) (metric w sv) x (@prox_l1 R _ 1 None sv x).
 Proof.
   intros. apply sep_conclude0 with (phis := repeat (fun t => Some (Rabs t)) n); [assumption| |apply l1_sep; assumption].
   intros z Hz. cbn [leaf_val]. apply l1_val; assumption.
@@ -80,7 +80,7 @@ Proof.
 Qed.
 Lemma l1g_sep lam n : forall g w sv x : Rvec, 0 < lam -> length g = n -> length w = n -> length sv = n -> length x = n ->
   allpos w -> allpos sv ->
-  sep_opt (phis_l1 lam g) w sv x (@prox_l1 R _ lam (Some g) sv x).
+  sep_sub (phis_l1 lam g) w sv x (@prox_l1 R _ lam (Some g) sv x).
 Proof.
   unfold phis_l1. vind2 n. - constructor.
   - inv_allpos. unfold prox_l1, gsub in *. unfv. cbn [vmap2 map]. constructor; try assumption.
@@ -89,7 +89,7 @@ Proof.
 Qed.
 Theorem l1_factory_prox lam n g w sv x : 0 < lam ->
   length g = n -> length w = n -> length sv = n -> length x = n -> allpos w -> allpos sv ->
-  is_proxm n (F_l1 lam g w) (metric w sv) x (@prox_l1 R _ lam (Some g) sv x).
+  is_proxs n (F_l1 lam g w) (metric w sv) x (@prox_l1 R _ lam (Some g) sv x).
 Proof.
   intros. apply sep_conclude0 with (phis := phis_l1 lam g); [assumption| |apply (l1g_sep lam n); assumption].
   intros z Hz. apply (l1g_val lam n); assumption.
@@ -104,17 +104,17 @@ Proof.
 Qed.
 Lemma l2sq_sep n : forall w sv x : Rvec, length w = n -> length sv = n -> length x = n ->
   allpos w -> allpos sv ->
-  sep_opt (repeat (fun t => Some (t * t)) n) w sv x (@prox_l2sq R _ 1 None sv x).
+  sep_sub (repeat (fun t => Some (t * t)) n) w sv x (@prox_l2sq R _ 1 None sv x).
 Proof.
   vind2 n. - constructor.
   - inv_allpos. unfold prox_l2sq in *. cbn [vmap2 repeat]. constructor; try assumption.
-    + numR. apply (opt1_ext (fun t => Some (1 * (t * t)))).
+    + numR. apply (sub1_ext (fun t => Some (1 * (t * t)))).
       { intros t. rewrite Rmult_1_l. reflexivity. }
       apply l2sq0_opt; [lra|assumption].
     + apply IHn; auto; lia.
 Qed.
 Theorem l2sq_leaf_prox n w sv x : length w = n -> length sv = n -> length x = n -> allpos w -> allpos sv ->
-  is_proxm n (@leaf_val R _ _ FL2Sq w) (metric w sv) x (@prox_l2sq R _ 1 None sv x).
+  is_proxs n (@leaf_val R _ _ FL2Sq w) (metric w sv) x (@prox_l2sq R _ 1 None sv x).
 Proof.
   intros. apply sep_conclude0 with (phis := repeat (fun t => Some (t * t)) n); [assumption| |apply l2sq_sep; assumption].
   intros z Hz. cbn [leaf_val]. apply l2sq_val; assumption.
@@ -131,7 +131,7 @@ Proof.
 Qed.
 Lemma l2sqg_sep lam n : forall g w sv x : Rvec, 0 < lam -> length g = n -> length w = n -> length sv = n -> length x = n ->
   allpos w -> allpos sv ->
-  sep_opt (phis_l2sq lam g) w sv x (@prox_l2sq R _ lam (Some g) sv x).
+  sep_sub (phis_l2sq lam g) w sv x (@prox_l2sq R _ lam (Some g) sv x).
 Proof.
   unfold phis_l2sq. vind2 n. - constructor.
   - inv_allpos. unfold prox_l2sq in *. cbn [vmap3 map]. constructor; try assumption.
@@ -140,7 +140,7 @@ Proof.
 Qed.
 Theorem l2sq_factory_prox lam n g w sv x : 0 < lam ->
   length g = n -> length w = n -> length sv = n -> length x = n -> allpos w -> allpos sv ->
-  is_proxm n (F_l2sq lam g w) (metric w sv) x (@prox_l2sq R _ lam (Some g) sv x).
+  is_proxs n (F_l2sq lam g w) (metric w sv) x (@prox_l2sq R _ lam (Some g) sv x).
 Proof.
   intros. apply sep_conclude0 with (phis := phis_l2sq lam g); [assumption| |apply (l2sqg_sep lam n); assumption].
   intros z Hz. apply (l2sqg_val lam n); assumption.
@@ -158,7 +158,7 @@ Proof.
 Qed.
 Lemma ccl2sq_sep lam n : forall g w sv x : Rvec, 0 < lam -> length g = n -> length w = n -> length sv = n -> length x = n ->
   allpos w -> allpos sv ->
-  sep_opt (phis_ccl2sq lam g) w sv x (@prox_cc_l2sq R _ lam (Some g) sv x).
+  sep_sub (phis_ccl2sq lam g) w sv x (@prox_cc_l2sq R _ lam (Some g) sv x).
 Proof.
   unfold phis_ccl2sq. vind2 n. - constructor.
   - inv_allpos. unfold prox_cc_l2sq in *. cbn [vmap3 map]. constructor; try assumption.
@@ -167,7 +167,7 @@ Proof.
 Qed.
 Theorem ccl2sq_factory_prox lam n g w sv x : 0 < lam ->
   length g = n -> length w = n -> length sv = n -> length x = n -> allpos w -> allpos sv ->
-  is_proxm n (F_ccl2sq lam g w) (metric w sv) x (@prox_cc_l2sq R _ lam (Some g) sv x).
+  is_proxs n (F_ccl2sq lam g w) (metric w sv) x (@prox_cc_l2sq R _ lam (Some g) sv x).
 Proof.
   intros. apply sep_conclude0 with (phis := phis_ccl2sq lam g); [assumption| |apply (ccl2sq_sep lam n); assumption].
   intros z Hz. apply (ccl2sq_val lam n); assumption.
@@ -179,13 +179,15 @@ Proof. vind2 n. - reflexivity. - unfv. cbn [vmap2 repeat]. f_equal; [numR; ring 
 Lemma wnormsq_zero_vec n : forall m : Rvec, length m = n -> wnormsq m (repeat 0 n) = 0.
 Proof. vind2 n. - reflexivity. - cbn [repeat]. rewrite wnormsq_cons, IHn by lia. ring. Qed.
 
+Lemma wdot_zero_vec_r n : forall m v : Rvec, length m = n -> length v = n -> wdot m v (repeat 0 n) = 0.
+Proof. vind2 n. - reflexivity. - cbn [repeat]. rewrite wdot_cons', IHn by lia. ring. Qed.
+
 Theorem const_leaf_prox n c m x : length m = n -> length x = n -> allpos m ->
-  is_proxm n (fun _ => Some c) m x x.
+  is_proxs n (fun _ => Some c) m x x.
 Proof.
-  intros Hm Hx Pm. split; [assumption|]. split; [eexists; reflexivity|].
-  intros z Hz. rewrite !prox_obj_R. cbn [ele].
-  rewrite (vsub_self n) by assumption. rewrite wnormsq_zero_vec by assumption.
-  pose proof (wnormsq_nonneg m (vsub z x) Pm). lra.
+  intros Hm Hx Pm. split; [assumption|]. exists c. split; [reflexivity|].
+  intros z Hz. cbn [ele]. rewrite (vsub_self n) by assumption.
+  rewrite (wdot_zero_vec_r n) by auto with vlen. lra.
 Qed.
 
 (* ---------------- box ---------------- *)
@@ -232,7 +234,7 @@ Qed.
 
 Lemma box_sep n : forall (L H : option Rvec) (w sv x : Rvec), olen n L -> olen n H ->
   length w = n -> length sv = n -> length x = n -> allpos w -> allpos sv ->
-  sep_opt (box_phis L H n) w sv x (pbox L H x).
+  sep_sub (box_phis L H n) w sv x (pbox L H x).
 Proof.
   induction n as [|n IHn]; intros L H [|w0 w] [|s0 sv] [|a x] HL HH Hw Hs Hx Pw Ps; cbn [length] in *; try lia.
   - unfold pbox. destruct L as [[|? ?]|], H as [[|? ?]|]; constructor.
@@ -250,7 +252,7 @@ Definition bound_ok (n : nat) (b : @bound R) : Prop := match b with BVec v => le
 
 Theorem box_leaf_prox n lo hi w sv x : bound_ok n lo -> bound_ok n hi ->
   length w = n -> length sv = n -> length x = n -> allpos w -> allpos sv ->
-  is_proxm n (@leaf_val R _ _ (FBox lo hi) w) (metric w sv) x (@prox_box R _ lo hi x).
+  is_proxs n (@leaf_val R _ _ (FBox lo hi) w) (metric w sv) x (@prox_box R _ lo hi x).
 Proof.
   intros Hlo Hhi Hw Hs Hx Pw Ps.
   rewrite prox_box_pbox, Hx.
@@ -276,13 +278,13 @@ Proof.
     + destruct (sepsum (repeat phi_zero n) w z); reflexivity.
 Qed.
 Lemma indzero_sep n : forall w sv x : Rvec, length w = n -> length sv = n -> length x = n -> allpos w -> allpos sv ->
-  sep_opt (repeat phi_zero n) w sv x (map (fun _ => 0) x).
+  sep_sub (repeat phi_zero n) w sv x (map (fun _ => 0) x).
 Proof.
   vind2 n. - constructor.
   - inv_allpos. cbn [repeat map]. constructor; try assumption; [apply zero_opt; assumption | apply IHn; auto; lia].
 Qed.
 Theorem indzero_leaf_prox c n w sv x : length w = n -> length sv = n -> length x = n -> allpos w -> allpos sv ->
-  is_proxm n (@leaf_val R _ _ (FIndZero c) w) (metric w sv) x (map (fun _ => 0) x).
+  is_proxs n (@leaf_val R _ _ (FIndZero c) w) (metric w sv) x (map (fun _ => 0) x).
 Proof.
   intros. apply sep_conclude with (phis := repeat phi_zero n) (c := c); [assumption| |apply indzero_sep; assumption].
   intros z Hz. apply indzero_val; assumption.
@@ -311,15 +313,14 @@ Proof.
     match goal with |- context [Rleb (Rabs ?a) 1] => destruct (Rleb (Rabs a) 1) end; cbn [andb escal eadd ind]; [|reflexivity].
     destruct (Rleb (vmaxabs z) 1); cbn [ind eadd]; [|reflexivity]. numR. f_equal. ring.
 Qed.
-Lemma ccl1_0_opt lam s x : 0 < lam -> 0 < s -> opt1 (phi_ball lam) s x (ccl1_1 lam x).
+Lemma ccl1_0_opt lam s x : 0 < lam -> 0 < s -> sub1 (phi_ball lam) s x (ccl1_1 lam x).
 Proof.
   intros Hl Hs. pose proof (ccl1_opt lam 0 s x Hl Hs) as Q.
   replace (x - s * 0) with x in Q by ring.
-  apply (opt1_ext _ _ _ _ _ (fun t => eq_refl)) in Q.
-  revert Q. apply opt1_ext. intros t. unfold phi_ball. destruct (Rleb (Rabs t) lam); [f_equal; ring|reflexivity].
+  revert Q. apply sub1_ext. intros t. unfold phi_ball. destruct (Rleb (Rabs t) lam); [f_equal; ring|reflexivity].
 Qed.
 Lemma ballinf_sep n : forall (w x : Rvec) s, 0 < s -> length w = n -> length x = n -> allpos w ->
-  sep_opt (repeat (phi_ball 1) n) w (repeat s n) x (@prox_cc_l1 R _ 1 None s x).
+  sep_sub (repeat (phi_ball 1) n) w (repeat s n) x (@prox_cc_l1 R _ 1 None s x).
 Proof.
   vind2 n. - constructor.
   - inv_allpos. unfold prox_cc_l1 in *. cbn [repeat map]. constructor; try assumption.
@@ -327,7 +328,7 @@ Proof.
     + apply IHn; auto; lia.
 Qed.
 Theorem ballinf_leaf_prox n w s x : 0 < s -> length w = n -> length x = n -> allpos w ->
-  is_proxm n (@leaf_val R _ _ FBallInf w) (metric w (repeat s n)) x (@prox_cc_l1 R _ 1 None s x).
+  is_proxs n (@leaf_val R _ _ FBallInf w) (metric w (repeat s n)) x (@prox_cc_l1 R _ 1 None s x).
 Proof.
   intros. apply sep_conclude0 with (phis := repeat (phi_ball 1) n); [assumption| |apply ballinf_sep; assumption].
   intros z Hz. cbn [leaf_val]. numR. apply ballinf_val; assumption.
@@ -341,7 +342,7 @@ Proof.
   - cbn [repeat sepsum escal]. rewrite <- (IHn w z) by lia. unfv. cbn [map vmap2 sumf eadd]. numR. reflexivity.
 Qed.
 Lemma huber_sep gamma n : forall (w x : Rvec) s, 0 <= gamma -> 0 < s -> length w = n -> length x = n -> allpos w ->
-  sep_opt (repeat (fun t => Some (hub gamma t)) n) w (repeat s n) x (@prox_huber R _ gamma s x).
+  sep_sub (repeat (fun t => Some (hub gamma t)) n) w (repeat s n) x (@prox_huber R _ gamma s x).
 Proof.
   vind2 n. - constructor.
   - inv_allpos. unfold prox_huber in *. cbn [repeat map]. constructor; try assumption.
@@ -349,7 +350,7 @@ Proof.
     + apply IHn; auto; lia.
 Qed.
 Theorem huber_leaf_prox gamma n w s x : 0 <= gamma -> 0 < s -> length w = n -> length x = n -> allpos w ->
-  is_proxm n (@leaf_val R _ _ (FHuber gamma) w) (metric w (repeat s n)) x (@prox_huber R _ gamma s x).
+  is_proxs n (@leaf_val R _ _ (FHuber gamma) w) (metric w (repeat s n)) x (@prox_huber R _ gamma s x).
 Proof.
   intros. apply sep_conclude0 with (phis := repeat (fun t => Some (hub gamma t)) n);
     [assumption| |apply huber_sep; assumption].
@@ -371,19 +372,19 @@ Proof.
     destruct (Rleb (vmaxabs z) lam); cbn [eadd]; [|reflexivity]. rewrite wdot_cons'. numR. reflexivity.
 Qed.
 Lemma ccl1_sep lam n : forall (g w x : Rvec) s, 0 < lam -> 0 < s -> length g = n -> length w = n -> length x = n -> allpos w ->
-  sep_opt (phis_ccl1 lam g) w (repeat s n) x (@prox_cc_l1 R _ lam (Some g) s x).
+  sep_sub (phis_ccl1 lam g) w (repeat s n) x (@prox_cc_l1 R _ lam (Some g) s x).
 Proof.
   unfold phis_ccl1. vind2 n. - constructor.
   - inv_allpos. unfold prox_cc_l1 in *. unfv. cbn [repeat map vmap2]. constructor; try assumption.
     + rewrite nmax_R. numR.
-      lazymatch goal with |- opt1 (fun t => if _ then Some (t * ?gi) else None) ?s ?a (?d / _) =>
+      lazymatch goal with |- sub1 (fun t => if _ then Some (t * ?gi) else None) ?s ?a (?d / _) =>
         replace d with (a - s * gi) by ring end.
       apply ccl1_opt; assumption.
     + apply IHn; auto; lia.
 Qed.
 Theorem ccl1_factory_prox lam n g w s x : 0 < lam -> 0 < s ->
   length g = n -> length w = n -> length x = n -> allpos w ->
-  is_proxm n (F_ccl1 lam g w) (metric w (repeat s n)) x (@prox_cc_l1 R _ lam (Some g) s x).
+  is_proxs n (F_ccl1 lam g w) (metric w (repeat s n)) x (@prox_cc_l1 R _ lam (Some g) s x).
 Proof.
   intros. apply sep_conclude0 with (phis := phis_ccl1 lam g); [assumption| |apply (ccl1_sep lam n); assumption].
   intros z Hz. apply (ccl1_val lam n); auto; lra.
